@@ -6,6 +6,7 @@ from fractions import Fraction
 
 from .. import engine as E
 from .. import gen as G
+from .. import hard as H
 from ..oracle import M, P10, f64_bits, f32_bits, decode_float
 from . import common as C
 
@@ -111,6 +112,18 @@ def gen(rng, tier, shard, batch):
     for op, mant in (("tof64", 53), ("tof32", 24)):
         for c, s in midpoint_cases(rng, mant, None, 40 if tier == "quick" else 150):
             reqs.append("%s %s mid" % (op, G.fD(c, s)))
+    # hard cases computed with the modular-interval solver (vf/hard.py): for every binade and scale the coefficients whose
+    # value is about as close to a midpoint of two adjacent floats as that binade allows (64- and 128-bit coefficients
+    # included - the f64 analogue of the exhaustive f32 near-midpoint scan); a fresh random start per batch
+    for op, mant in (("tof64", 53), ("tof32", 24)):
+        for e in range(-62, 127):
+            if (e + shard + batch) % 4 and tier == "quick":
+                continue
+            for s in range(19):
+                for c in H.dec_to_float_hard(rng, mant, s, e):
+                    reqs.append("%s %s hard" % (op, G.fD(c if rng.random() < 0.5 else -c, s)))
+                    if rng.random() < 0.2:
+                        reqs.append("%s %s hard" % (op, G.fD(c + rng.choice((1, -1)), s)))
     for _ in range(N_RANDOM[tier]):
         c, s = G.dec(rng)
         reqs.append("%s %s" % (rng.choice(("tof64", "tof32")), G.fD(c, s)))
